@@ -409,10 +409,17 @@ inductive PRKind where
   | toCombine
 deriving Repr, Inhabited, DecidableEq
 
+/-- a `combine_sizes` value: one size for every output block, or the sizes given explicitly (one per output
+block, what `scan` passes). -/
+inductive CombSize where
+  | const (k : Nat)
+  | sizes (l : List Nat)
+deriving Repr, Inhabited
+
 structure PartialReduce where
   x : Chunks
-  split : List (Nat × Nat)       -- axis ↦ split_every
-  combine : List (Nat × Nat)     -- axis ↦ combine_sizes (default 1)
+  split : List (Nat × Nat)           -- axis ↦ split_every
+  combine : List (Nat × CombSize)    -- axis ↦ combine_sizes (default 1)
   kind : PRKind := .keepdims
 deriving Repr, Inhabited
 
@@ -420,10 +427,15 @@ def mapIdxFrom {α β : Type} (f : Nat → α → β) : Nat → List α → List
   | _, [] => []
   | k, x :: xs => f k x :: mapIdxFrom f (k + 1) xs
 
-/-- chunks of the output along axis `i` (input chunks `c`). -/
+/-- chunks of the output along axis `i` (input chunks `c`): the explicit tuple, or
+`(size,) * ceil(len(c) / split_every[i])`. -/
 def prAxisChunks (p : PartialReduce) (i : Nat) (c : List Nat) : List Nat :=
   match p.split.lookup i with
-  | some k => List.replicate (ceilDiv c.length k) ((p.combine.lookup i).getD 1)
+  | some k =>
+    match p.combine.lookup i with
+    | some (.sizes l) => l
+    | some (.const s) => List.replicate (ceilDiv c.length k) s
+    | none => List.replicate (ceilDiv c.length k) 1
   | none => c
 
 def prChunkss (p : PartialReduce) : Chunks := mapIdxFrom (prAxisChunks p) 0 p.x
@@ -433,7 +445,11 @@ def prAxisLen (p : PartialReduce) (i k len b : Nat) : Nat :=
   match p.kind with
   | .keepdims => 1
   | .concat => min k (len - b * k)
-  | .toCombine => (p.combine.lookup i).getD 1
+  | .toCombine =>
+    match p.combine.lookup i with
+    | some (.const s) => s
+    | some (.sizes l) => l.getD b 1
+    | none => 1
 
 def prAxisBlock (p : PartialReduce) (i : Nat) (c : List Nat) (b : Nat) : Option Nat :=
   match p.split.lookup i with
@@ -494,6 +510,19 @@ def arraySlices : List Nat → Nat → Nat → Nat → Nat → List (Nat × Nat 
     (if lo < hi then [(i, lo - off, hi - off)] else []) ++ arraySlices rest (i + 1) (off + n) start stop
 
 /-! ## stack / unstack -/
+
+/-- what `stack` does to its operands before building the op (repaired code): shapes must agree; an operand
+chunked differently from the first is rechunked to the first's chunk size — except that `rechunk` returns a
+zero-size array unchanged (`_rechunk_plan`). -/
+def stackUnify (args : List Chunks) : Option (List Chunks) :=
+  match args with
+  | [] => none
+  | a :: _ =>
+    if args.any (fun x => shapeOf x != shapeOf a) then none
+    else some (args.map (fun x =>
+      if x == a then x
+      else if (shapeOf x).any (· == 0) then x
+      else List.zipWith regGrid (chunkSize a) (shapeOf x)))
 
 def stackChunkss (args : List Chunks) (axis : Nat) : Option Chunks :=
   match args with
@@ -623,13 +652,22 @@ def indexBlock : Chunks → List Sel → List Nat → Option (List Nat)
 /-- `numpy.linalg.qr(a, mode="reduced")` for an `m × n` block: shapes of Q and R. -/
 def qrShapes (m n : Nat) : (List Nat) × (List Nat) := ([m, min m n], [min m n, n])
 
-/-- `_qr_first_step`: Q1 gets `A.chunks`; R1 gets `((n,)*k, (n,))` with `(m, n) = A.chunksize`,
-`k = A.numblocks[0]`. -/
-def qr1Chunkss (a : Chunks) : Option (Chunks × Chunks) :=
+/-- `_qr_first_step` before the repair (no check): Q1 gets `A.chunks`; R1 gets `((n,)*k, (n,))` with
+`(m, n) = A.chunksize`, `k = A.numblocks[0]`. -/
+def qr1ChunkssOld (a : Chunks) : Option (Chunks × Chunks) :=
   match a with
   | [rows, cols] =>
     let n := maxOf cols
     some ([rows, cols], [List.replicate rows.length n, [n]])
+  | _ => none
+
+/-- `qr` + `_qr_first_step` (repaired): a single column chunk is required, and every row chunk must have at
+least as many rows as there are columns (ValueError otherwise). -/
+def qr1Chunkss (a : Chunks) : Option (Chunks × Chunks) :=
+  match a with
+  | [rows, [n]] =>
+    if rows.any (fun m => decide (m < n)) then none
+    else some ([rows, [n]], [List.replicate rows.length n, [n]])
   | _ => none
 
 def qr1Block (a : Chunks) (coords : List Nat) : Option (List Nat × List Nat) :=
